@@ -1,6 +1,7 @@
 (* C10 -- little-endian fields, struct.pack / unpack round trip, the staging buffer built by the packing loop *)
 From Coq Require Import ZArith List Bool Lia.
 Require Import Rig.Model.Base Rig.Generated.GenRouter Rig.Model.Tables Rig.Model.Router.
+Require Import Rig.Proofs.RouterWord.
 Import ListNotations.
 Open Scope Z_scope.
 
@@ -41,11 +42,14 @@ Qed.
 Lemma le_bytes_length : forall n v, length (le_bytes n v) = n.
 Proof. induction n as [|n IH]; intros v; simpl; [reflexivity|]. rewrite IH. reflexivity. Qed.
 
+Lemma le_value_cons : forall b r, le_value (b :: r) = b + 256 * le_value r.
+Proof. reflexivity. Qed.
+
 Lemma le_value_bytes : forall n v, 0 <= v < 2 ^ (8 * Z.of_nat n) -> le_value (le_bytes n v) = v.
 Proof.
   induction n as [|n IH]; intros v Hv.
   - simpl in *. lia.
-  - rewrite le_bytes_S. simpl le_value.
+  - rewrite le_bytes_S, le_value_cons.
     rewrite IH.
     + pose proof (Z.div_mod v 256 ltac:(lia)). lia.
     + replace (8 * Z.of_nat (S n)) with (8 + 8 * Z.of_nat n) in Hv by lia.
@@ -69,6 +73,11 @@ Qed.
 Lemma fits_range : forall s v, fits s v = true -> 0 <= v < 2 ^ (8 * s).
 Proof. intros s v H. unfold fits in H. apply andb_prop in H. destruct H as [H1 H2]. lia. Qed.
 
+Lemma pack_fields_cons_ok : forall s ss v vs r,
+  fits s v = true -> pack_fields ss vs = Some r ->
+  pack_fields (s :: ss) (v :: vs) = Some (le_bytes (Z.to_nat s) v ++ r).
+Proof. intros s ss v vs r H H0. cbn [pack_fields]. rewrite H, H0. reflexivity. Qed.
+
 Lemma pack_fields_length : forall sizes vals bs,
   Forall (fun s => 0 <= s) sizes ->
   pack_fields sizes vals = Some bs -> len bs = fold_right Z.add 0 sizes.
@@ -77,8 +86,9 @@ Proof.
   - injection H as <-. reflexivity.
   - destruct (fits s v) eqn:Hf; [|discriminate].
     destruct (pack_fields ss vs) as [r|] eqn:Hr; [|discriminate].
-    injection H as <-. inversion Hs; subst.
-    rewrite len_app. simpl. erewrite IH by eassumption.
+    injection H as <-. inversion Hs as [|? ? Hs0 Hss]; subst.
+    rewrite len_app. change (fold_right Z.add 0 (s :: ss)) with (s + fold_right Z.add 0 ss).
+    rewrite (IH vs r Hss Hr).
     unfold len. rewrite le_bytes_length. lia.
 Qed.
 
@@ -90,11 +100,14 @@ Proof.
   - reflexivity.
   - destruct (fits s v) eqn:Hf; [|discriminate].
     destruct (pack_fields ss vs) as [r|] eqn:Hr; [|discriminate].
-    injection H as <-. inversion Hs; subst. simpl.
+    injection H as <-. inversion Hs as [|? ? Hs0 Hss]; subst.
+    change (unpack_fields (s :: ss) (le_bytes (Z.to_nat s) v ++ r))
+      with (le_value (firstn (Z.to_nat s) (le_bytes (Z.to_nat s) v ++ r))
+            :: unpack_fields ss (skipn (Z.to_nat s) (le_bytes (Z.to_nat s) v ++ r))).
     rewrite firstn_app_exact by (rewrite le_bytes_length; reflexivity).
     rewrite skipn_app_exact by (rewrite le_bytes_length; reflexivity).
     rewrite le_value_bytes.
-    + f_equal. eapply IH; eassumption.
+    + f_equal. exact (IH vs r Hss Hr).
     + apply fits_range in Hf. rewrite Z2Nat.id by assumption. exact Hf.
 Qed.
 
@@ -114,7 +127,7 @@ Proof. intros. unfold rec_bytes. rewrite !app_length, !le_bytes_length. reflexiv
 
 Lemma route_word_24_32 : forall rs, (forall r, In r rs -> 0 <= r < 24) -> 0 <= route_word rs < 2 ^ 32.
 Proof.
-  intros rs H. pose proof (Proofs.RouterWord.route_word_bound rs 24 ltac:(lia) H) as B.
+  intros rs H. pose proof (route_word_bound rs 24 ltac:(lia) H) as B.
   assert (2 ^ 24 < 2 ^ 32) by (apply Z.pow_lt_mono_r; lia). lia.
 Qed.
 
@@ -125,14 +138,18 @@ Lemma pack_record : forall i e,
 Proof.
   intros i e Hi [Hr [Hk Hm]].
   pose proof (route_word_24_32 _ Hr) as Hw.
-  unfold rte_field_sizes, lrte_rec_values, rec_bytes. simpl pack_fields.
   assert (F : forall s v, 0 <= v < 2 ^ (8 * s) -> fits s v = true).
   { intros s v Hv. unfold fits. apply andb_true_intro. split; [apply Z.leb_le|apply Z.ltb_lt]; lia. }
-  rewrite (F 2 i) by (change (2 ^ (8 * 2)) with (2 ^ 16); lia).
-  rewrite (F 2 0) by (change (2 ^ (8 * 2)) with 65536; lia).
-  rewrite (F 4 (route_word (e_route e))) by (change (8 * 4) with 32; lia).
-  rewrite (F 4 (e_key e)) by (change (8 * 4) with 32; lia).
-  rewrite (F 4 (e_mask e)) by (change (8 * 4) with 32; lia).
+  unfold rte_field_sizes, lrte_rec_values.
+  change (rec_bytes i e) with
+    (le_bytes (Z.to_nat 2) i ++ le_bytes (Z.to_nat 2) 0 ++ le_bytes (Z.to_nat 4) (route_word (e_route e))
+     ++ le_bytes (Z.to_nat 4) (e_key e) ++ le_bytes (Z.to_nat 4) (e_mask e) ++ []).
+  change (8 * 4) with 32 in F || idtac.
+  apply pack_fields_cons_ok; [apply F; change (8 * 2) with 16; lia|].
+  apply pack_fields_cons_ok; [apply F; change (8 * 2) with 16; lia|].
+  apply pack_fields_cons_ok; [apply F; change (8 * 4) with 32; lia|].
+  apply pack_fields_cons_ok; [apply F; change (8 * 4) with 32; lia|].
+  apply pack_fields_cons_ok; [apply F; change (8 * 4) with 32; lia|].
   reflexivity.
 Qed.
 
@@ -163,8 +180,8 @@ Proof. induction es as [|e es IH]; intros i; simpl; [reflexivity|]. rewrite IH. 
 
 Lemma concat_recs_length : forall es i, length (concat (recs_from i es)) = (16 * length es)%nat.
 Proof.
-  induction es as [|e es IH]; intros i; simpl; [reflexivity|].
-  rewrite app_length, rec_bytes_length, IH. lia.
+  induction es as [|e es IH]; intros i; [reflexivity|].
+  cbn [recs_from concat]. rewrite app_length, rec_bytes_length, IH. cbn [length]. lia.
 Qed.
 
 Lemma write_at_middle : forall (pre bs post : list Z) off,
